@@ -90,6 +90,7 @@ def make_may_raise(noexcept, types):
 TECHNIQUE += '; strided-memoryview lint (address of a non-contiguous view handed on as a unit-stride pointer); the entry point interpreted with per-layer tuples of mismatched length'
 
 EXPLANATION += ' R06.14 every memoryview whose address is taken is declared contiguous; R06.12 also: a per-layer tuple shorter or longer than layer_types is refused before any tuple is indexed.'
+EXPLANATION += ' R06.15 the dimension arguments handed to the LAPACK surface solve are the matrix order and its leading dimension (C02\'s surface rule, dimension part, by alias).'
 
 EXPLANATION += ' R06.15 the dimension arguments of the LAPACK solve describe the surface matrix as it was filled (no read of unwritten stack memory).'
 
